@@ -391,6 +391,10 @@ func (l *noMixConstraintImpl) EstimateIsViolated(
 			if previousNoMixData.tour != tour || previousNoMixData.content.Name != contentName {
 				return true, constNoPositionsHint
 			}
+			// what is on board in front of this position is what the planned
+			// stop before it carries (other units may have removed items
+			// since the first position), plus what this move added so far
+			contentQuantity = previousNoMixData.content.Quantity
 		}
 		insertMixItem, hasInsertMixItem = l.insert[moveImpl.stopPositions[idx].Stop().ModelStop()]
 		if hasInsertMixItem {
